@@ -306,7 +306,7 @@ func getRig() *rig {
 	rigOnce.Do(func() {
 		r := &rig{cfg: proxyConfig(100 * time.Millisecond), noRoute: generic.NewCounter("grpc.noroute")}
 		for i := 0; i < callBackends; i++ {
-			l, err := net.Listen("tcp", "127.0.0.1:0")
+			l, err := listenLoopback()
 			if err != nil {
 				panic(err)
 			}
@@ -317,7 +317,7 @@ func getRig() *rig {
 			r.backends = append(r.backends, b)
 			r.urls = append(r.urls, "grpc://"+b.addr)
 		}
-		l, err := net.Listen("tcp", "127.0.0.1:0")
+		l, err := listenLoopback()
 		if err != nil {
 			panic(err)
 		}
